@@ -535,6 +535,88 @@ pub fn second_life_case(seed: u64, l: &mut Local) {
     }
 }
 
+/// An instance that moved to another host: its old SRV record (to a host whose address never arrives) is known
+/// first; then, in any order and split over up to three packets, the new SRV record, the new host's address and
+/// the withdrawal (TTL 0) of the old SRV record. From the instant the new SRV record and the address are there
+/// the records describing the instance have reached the daemon - whatever else it has heard about the old one.
+pub fn moved_host_case(seed: u64, l: &mut Local) {
+    let mut rng = Rng::new(seed);
+    let mut w = World::new(seed);
+    let stepping = if rng.chance(1, 4) { Stepping::Eager(10) } else { Stepping::Lazy };
+    w.set_stepping(stepping);
+    let sl = c03::slack(stepping);
+    let h = w.add_host(scen::single_v4());
+    w.set_ip_check_interval(h, 3600);
+    let Some(chan) = w.browse(h, browser::TY) else { return };
+    w.run_for(rng.below(600));
+    let new = Svc::new(browser::TY, "mover", "new-host.local", [10, 0, 0, 34]);
+    let mut old = new.clone();
+    old.host = wire::name("old-host.local");
+    old.port = new.port + 1;
+    // first: PTR, old SRV, TXT (one packet or three)
+    let mut m = Message::response();
+    m.answers = vec![new.ptr(), old.srv(), new.txt()];
+    if rng.chance(1, 2) {
+        rng.shuffle(&mut m.answers);
+    }
+    w.inject_msg(h, 2, scen::peer4(34), &m);
+    w.run_for(100 + rng.below(1900));
+    // then the move
+    let mut bye = old.srv();
+    bye.ttl = 0;
+    let mut recs = vec![(0u8, new.srv()), (1, bye)];
+    recs.extend(new.addrs().into_iter().map(|a| (2u8, a)));
+    // (the old record's withdrawal never before the new record: the last SRV record heard alive is the new one)
+    let order = rng.below(3);
+    match order {
+        0 => {}                    // new SRV, goodbye, address
+        1 => recs.swap(1, 2),      // new SRV, address, goodbye
+        _ => recs.rotate_right(1), // address, new SRV, goodbye
+    }
+    let one_packet = rng.chance(1, 2);
+    let mut t_srv = 0;
+    let mut t_addr = 0;
+    if one_packet {
+        let mut m = Message::response();
+        m.answers = recs.iter().map(|(_, r)| r.clone()).collect();
+        w.inject_msg(h, 2, scen::peer4(34), &m);
+        w.settle();
+        t_srv = w.now();
+        t_addr = w.now();
+    } else {
+        for (k, r) in recs.iter() {
+            let mut m = Message::response();
+            m.answers.push(r.clone());
+            w.inject_msg(h, 2, scen::peer4(34), &m);
+            w.settle();
+            match k {
+                0 => t_srv = w.now(),
+                2 => t_addr = w.now(),
+                _ => {}
+            }
+            w.run_for(*rng.pick(&[0u64, 1, 40, 300]));
+        }
+    }
+    let t_complete = t_srv.max(t_addr);
+    w.run_for(5000);
+    l.evaluations += 1;
+    l.distinct.insert(util::fnv_str(&format!("moved|{order}|{one_packet}|{stepping:?}")));
+    if w.trace.deaths().any(|d| matches!(d.ev, Ev::Death { panicked: true, .. })) {
+        l.inconclusive.push(format!("daemon died in a C04 scenario (seed {seed})"));
+        return;
+    }
+    l.act("F1");
+    l.act("F1-moved-host");
+    let obs: Vec<(u64, &Obs)> = w.trace.obs(chan).map(|(e, o)| (e.t, o)).collect();
+    let resolved = obs.iter().find(|(t, o)| *t >= t_complete && matches!(o, Obs::Resolved(_))).map(|(t, _)| *t);
+    let wit = || json!({"order": order, "one_packet": one_packet, "complete_at_ms": t_complete - EPOCH, "trace": scen::witness_window(&w.trace, t_complete.saturating_sub(2500), t_complete + 2000, 50)});
+    match resolved {
+        None => l.violate(Violation::new("F1", "F1/never-resolved/instance-that-moved-to-another-host", "PTR, TXT, the SRV record to the new host and that host's address have all arrived (the old SRV record was withdrawn), but ServiceResolved never followed").with(wit())),
+        Some(t) if t > t_complete + sl => l.violate(Violation::new("F1", "F1/late/instance-that-moved-to-another-host", format!("ServiceResolved {} ms after the last needed record", t - t_complete)).with(wit())),
+        _ => {}
+    }
+}
+
 pub fn run_one(seed: u64, enumerated: Option<(u64, u64)>, l: &mut Local) {
     let made = scenario(seed, enumerated);
     l.evaluations += 1;
@@ -701,7 +783,7 @@ pub fn run(report: &Report, tier: &Tier) {
          with a lone PTR; distinct by full scenario description",
     );
     report.assume("no obligation for follow-up questions about names containing '.' or '\\' (they are re-encoded differently: see C15 / DESIGN §12)");
-    for r in ["F1", "F1-content", "F2", "F3"] {
+    for r in ["F1", "F1-content", "F1-moved-host", "F2", "F3"] {
         report.floor(r, 30);
     }
     let seed = report.seed;
@@ -722,6 +804,10 @@ pub fn run(report: &Report, tier: &Tier) {
     let n2: u64 = if tier.thorough { 30_000 } else { 600 };
     run_parallel(report, n2, threads(), tier.budget_s * 0.1, |i, l| {
         second_life_case(util::mix(seed, 0xC04_2000 + i), l);
+    });
+    let n3: u64 = if tier.thorough { 30_000 } else { 600 };
+    run_parallel(report, n3, threads(), tier.budget_s * 0.1, |i, l| {
+        moved_host_case(util::mix(seed, 0xC04_3000 + i), l);
     });
     real_socket_part(report, seed, if tier.thorough { 200 } else { 25 });
 }
